@@ -152,6 +152,20 @@ async def p_backend_failures(wd):
         wd.spy.fail_name["read"] = True
         await _line(wd, c, "RETR f.txt")  # 150, 451
         wd.spy.fail_name.pop("read", None)
+        if k == 0:
+            # the failed transfer is over: the SAME listener takes the next data connection, and the next transfer is whole
+            c.data = None
+            conn = wd.connection_of(c)
+            ok, ps = wd._get(conn, "passive_server") if conn is not None else (False, None)
+            if ok:
+                await c.data_connect(ps.port)
+                await wd.loop.settle()
+                c.keep_data = True
+                codes, _, out, _ = await W.run_line(wd, c, b"RETR f.txt")
+                c.keep_data = False
+                if codes != [150, 226] or out != b"0123456789":
+                    wd.notes.append("after a RETR the backend failed (451), a new data connection to the same listener and RETR again gave %r with %d bytes (want [150, 226] and the 10 bytes of the file)" % (codes, len(out)))
+            await _passive(wd, c)
         wd.spy.fail_name["mkdir"] = True
         await _line(wd, c, "MKD /will-fail")  # 451
         wd.spy.fail_name.pop("mkdir", None)
@@ -247,6 +261,7 @@ async def probe(wd):
 async def _case(loop, past, tree_entries):
     wd = W.World(loop, USERS, server_kwargs=dict(CFG, wait_future_timeout=1))
     await wd.start()
+    wd.notes = []
     out = {}
     try:
         wd.set_tree(tree_entries)
@@ -257,6 +272,7 @@ async def _case(loop, past, tree_entries):
             await loop.settle()
             out["ledger"] = SC.ledger_clean(SC.ledger(wd), CFG)
             out["tree"] = wd.tree()
+            out["notes"] = list(wd.notes)
         out["probe"] = await probe(wd)
         await asyncio.sleep(1)
         await loop.settle()
@@ -283,6 +299,8 @@ def judge(pid, past):
     if isinstance(o, str):
         return [{"input": inp, "what": "a server with the past %r did not get through the probe session (%s)" % (past, o), "signature": "%s:history:%s:probe-failed" % (pid, past)}]
     fails = []
+    for n in o.get("notes") or []:
+        fails.append({"input": inp, "what": n, "signature": "%s:history:%s:inside-the-past" % (pid, past)})
     if o["ledger"]:
         fails.append({"input": inp, "what": "after earlier sessions that %s were over, the server still held: %s" % (past, "; ".join(o["ledger"])[:300]), "signature": "%s:history:%s:left-behind" % (pid, past)})
     fresh = _job((None, entries_of(o["tree"])))
@@ -297,9 +315,168 @@ def judge(pid, past):
     return fails
 
 
+# ---- histories that are not sessions: the operator's, and other servers of the same process -------------------------
+async def x_two_servers(loop):
+    """two servers in one process, the same login name with different passwords: each knows its own"""
+    bad = []
+    for first, second in ((("admin", "pw-of-A"), ("admin", "pw-of-B")), (("admin", "pw-of-B"), ("admin", "pw-of-A"))):
+        for who in (first, second):
+            wd = W.World(loop, [W.UserSpec(who[0], who[1])], port=2121 if who is first else 2122)
+            await wd.start()
+            try:
+                wd.set_tree(TREE[:6])
+                c = await wd.raw_client()
+                other = second if who is first else first
+                a = await _line(wd, c, "USER " + who[0])
+                if who is second:
+                    b = await _line(wd, c, "PASS " + other[1])
+                    served = await _line(wd, c, "PWD")
+                    if b != [530] or served == [257]:
+                        bad.append("a second server of the process (login %r, password %r) answered PASS %r - the password of the same login on the FIRST server - with %r, then PWD %r" % (who[0], who[1], other[1], b, served))
+                    a = await _line(wd, c, "USER " + who[0])
+                b = await _line(wd, c, "PASS " + who[1])
+                if b != [230]:
+                    bad.append("a server (login %r, password %r; an earlier server of the process had %r) answered its own password with %r" % (who[0], who[1], other[1], b))
+                await _line(wd, c, "QUIT")
+            finally:
+                try:
+                    await wd.stop()
+                except Exception:
+                    wd.finish()
+    return bad
+
+
+async def x_table_changed(loop):
+    """the operator takes an account away / changes a password on the running server: the next session sees the table as it is"""
+    bad = []
+    wd = W.World(loop, [W.UserSpec("guest", None), W.UserSpec("alice", "secret"), W.UserSpec("bob", None)])
+    await wd.start()
+    try:
+        wd.set_tree(TREE[:6])
+        c = await wd.raw_client()
+        await _line(wd, c, "USER guest")
+        await _line(wd, c, "USER alice")
+        await _line(wd, c, "PASS secret")
+        await _line(wd, c, "QUIT")
+        table = wd.server.user_manager.users
+        guest = [u for u in table if u.login == "guest"][0]
+        alice = [u for u in table if u.login == "alice"][0]
+        table.remove(guest)
+        alice.password = "changed"
+        c = await wd.raw_client()
+        a = await _line(wd, c, "USER guest")
+        served = await _line(wd, c, "PWD")
+        if a != [530] or served == [257]:
+            bad.append("account 'guest' was taken out of the running server's user table after an earlier session had used it: USER guest -> %r, PWD -> %r (want 530, not served)" % (a, served))
+        await _line(wd, c, "USER alice")
+        b = await _line(wd, c, "PASS secret")
+        served = await _line(wd, c, "PWD")
+        if b != [530] or served == [257]:
+            bad.append("alice's password was changed on the running server after an earlier session had logged in with the old one: PASS <old> -> %r, PWD -> %r (want 530, not served)" % (b, served))
+        await _line(wd, c, "USER alice")
+        b = await _line(wd, c, "PASS changed")
+        if b != [230]:
+            bad.append("alice's password was changed on the running server: PASS <new> -> %r" % (b,))
+        c.close()
+        await loop.settle()
+    finally:
+        try:
+            await wd.stop()
+        except Exception:
+            wd.finish()
+    return bad
+
+
+async def x_base_changed(loop):
+    """the operator re-points a user's base directory on the running server: later sessions are served from the new one"""
+    import pathlib
+
+    bad = []
+    wd = W.World(loop, [W.UserSpec("bob", None)])
+    await wd.start()
+    try:
+        wd.set_tree([(("monday",), None), (("monday", "x.txt"), b"monday's"), (("monday", "d"), None), (("tuesday",), None), (("tuesday", "x.txt"), b"tuesday's"), (("tuesday", "d"), None)])
+        bob = wd.users[0]
+        for day, want in (("monday", b"monday's"), ("tuesday", b"tuesday's"), ("monday", b"monday's")):
+            bob.base_path = pathlib.Path(day)
+            n0 = len(wd.spy.log)
+            c = await wd.raw_client()
+            await _line(wd, c, "USER bob")
+            await _passive(wd, c)
+            codes, _, out, _ = await W.run_line(wd, c, b"RETR x.txt")
+            await _line(wd, c, "CWD d")
+            await _passive(wd, c)
+            await W.run_line(wd, c, b"STOR up.bin", b"u")
+            await _line(wd, c, "QUIT")
+            seen = []
+            for _, name, shown in wd.spy.log[n0:]:
+                if name not in ("exists", "is_dir", "is_file", "mkdir", "rmdir", "unlink", "list", "stat", "open", "rename"):
+                    continue
+                if isinstance(shown, list):
+                    seen += [x for x in shown[: 2 if name == "rename" else 1]]
+                elif isinstance(shown, str):
+                    seen.append(shown)
+            outside = sorted({x for x in seen if x not in ("", ".") and not (x == day or x.startswith(day + "/"))})
+            if out != want or outside:
+                bad.append("bob's base directory is %r now (it was another one during earlier sessions): RETR x.txt delivered %r (want %r); backend paths outside the base: %r" % (day, out, want, outside[:4]))
+    finally:
+        try:
+            await wd.stop()
+        except Exception:
+            wd.finish()
+    return bad
+
+
+async def x_second_manager(loop):
+    """a second Server object is built from the same User objects while a session of the first is still logged in"""
+    import aioftp
+
+    bad = []
+    wd = W.World(loop, [W.UserSpec("foo", "pw", max_conn=1), W.UserSpec("bob", None)])
+    await wd.start()
+    try:
+        wd.set_tree(TREE[:6])
+        c = await wd.raw_client()
+        await _line(wd, c, "USER foo")
+        await _line(wd, c, "PASS pw")
+        second = aioftp.Server(wd.users)  # never started: building it must not touch the first one's accounting
+        await _line(wd, c, "QUIT")
+        await loop.settle()
+        first_free = [wd.server.user_manager.available_connections[u].value for u in wd.users]
+        second_free = [second.user_manager.available_connections[u].value for u in wd.users]
+        c = await wd.raw_client()
+        a = await _line(wd, c, "USER foo")
+        if first_free != [1, None] or second_free != [1, None] or a != [331]:
+            bad.append("a second Server was built from the same User objects while foo (one session allowed) was logged in on the first; after foo left: free slots on the first %r, on the second %r (want [1, None] both), USER foo on the first -> %r" % (first_free, second_free, a))
+        c.close()
+        await loop.settle()
+    finally:
+        try:
+            await wd.stop()
+        except Exception:
+            wd.finish()
+    return bad
+
+
+EXTRAS = {"C03": [x_two_servers, x_table_changed], "C02": [x_base_changed], "C10": [x_second_manager]}
+
+
+def _extra_job(fn):
+    try:
+        return simnet.run(fn, wall_limit=60)
+    except BaseException as e:  # noqa
+        return ["HARNESS-ERROR %s: %s" % (type(e).__name__, e)]
+
+
 def run(ctx, pid, pasts=None):
     res = Result()
-    for past in (pasts or list(PASTS)):
+    for fn in EXTRAS.get(pid, []):
+        res.cases += 1
+        res.count("history extra=" + fn.__name__)
+        res.distinct.add(("history-extra", fn.__name__))
+        for what in _extra_job(fn):
+            res.oracle_failures.append({"input": {"kind": "history", "extra": fn.__name__}, "what": what, "signature": "%s:history:%s" % (pid, fn.__name__)})
+    for past in (list(PASTS) if pasts is None else pasts):
         res.cases += 1
         res.count("history past=" + past)
         res.distinct.add(("history", past))
@@ -309,6 +486,11 @@ def run(ctx, pid, pasts=None):
 
 
 def replay(pid, inp):
+    if "extra" in inp:
+        bad = _extra_job({f.__name__: f for fs in EXTRAS.values() for f in fs}[inp["extra"]])
+        for b in bad:
+            print(b)
+        return bool(bad)
     fails = judge(pid, inp["past"])
     for f in fails:
         print(f["signature"], f["what"])
